@@ -4,6 +4,8 @@ CONSTANTS
   QNs <- MCQNs
   XsiPolicy = "publish"
   CachePolicy = "class"
+  Vars <- MCVars
+  MemoPolicy = "qname"
   NThreads = 2
   ProgIds = {1, 2, 3, 4}
   Warmth = {"cold", "warm"}
